@@ -3,7 +3,7 @@ from ..ir import AnalysisBroken, strip_targs, qmatch
 from ..graph import Graph
 from ..expr import access_path, path_str, held_locks, reaching_defs, norm_cond, origins, leaves, defs_in_node
 from ..charclass import describe, CTYPE
-from .common import strip_casts, short, comparison, member_funcs, subtree_through_locals, gated_by, loops_over, loop_visits_every_element
+from .common import strip_casts, short, comparison, member_funcs, subtree_through_locals, gated_by, after_result, loops_over, loop_visits_every_element
 from ..symb import feasible_reach, feasible_armed_reach
 from . import c06
 
@@ -321,6 +321,19 @@ def rule_r4(ck, prog, rule='C19.R4', cls='sdk::instrumentationscope::ScopeConfig
         default_after = len(after) == 1 and any(lf.nodes[i]['k'] in ('member', 'ref') and 'default' in lf.nodes[i]['name'] for i in lf.subtree(after[0].n['e']))
         fwd = lp['range'] is not None and not any(lf.nodes[i]['k'] == 'call' and strip_targs(lf.nodes[i].get('c', '')).rsplit('::', 1)[-1] in ('rbegin', 'rend') for i in lf.subtree(lp['range']))
         ok = first_match and default_after and fwd
+        if not ok and fwd:
+            # the same loop with the guard in another form (named result, inverted test with `continue`): decided by pinning the
+            # matcher - a condition's config is returned only behind a true matcher, and once a matcher said yes every path
+            # reaches that return before anything else (first match wins); the default is what remains
+            def is_matcher(ff, cn):
+                return cn['k'] == 'call' and any(ff.nodes[k]['k'] == 'member' and ff.nodes[k].get('name') == 'scope_matcher'
+                                                 for x in ([cn['obj']] if cn.get('obj') is not None else []) + ([cn['fx']] if cn.get('fx') is not None else [])
+                                                 for k in [x] + list(ff.subtree(x)))
+            cfg_rets = [r for r in g.returns() if any(lf.nodes[i]['k'] == 'member' and lf.nodes[i]['name'] == 'scope_config' for i in lf.subtree(r.n['e']))]
+            def_rets = [r for r in g.returns() if r not in cfg_rets]
+            ok = bool(cfg_rets) and len(def_rets) == 1 and \
+                any(lf.nodes[i]['k'] in ('member', 'ref') and 'default' in lf.nodes[i]['name'] for i in lf.subtree(def_rets[0].n['e'])) and \
+                gated_by(g, cfg_rets, is_matcher, True)[0] and after_result(g, is_matcher, True, cfg_rets)[0]
     if not ok:
         # the same search written with std::find_if over [begin, end) in insertion order: the hit's config when found, else the default
         for lf in lams:
